@@ -236,6 +236,7 @@ pub trait GenerateNewtype {
 
     fn gen_validation_error_type(
         type_name: &TypeName,
+        inner_type: &Self::InnerType,
         error_type_path: &ErrorTypePath,
         validators: &[Self::Validator],
     ) -> TokenStream;
@@ -265,8 +266,12 @@ pub trait GenerateNewtype {
                 validators,
                 error_type_path,
             } => {
-                let validation_error =
-                    Self::gen_validation_error_type(type_name, error_type_path, validators);
+                let validation_error = Self::gen_validation_error_type(
+                    type_name,
+                    inner_type,
+                    error_type_path,
+                    validators,
+                );
                 Some(validation_error)
             }
             Validation::Custom { .. } => None,
